@@ -41,8 +41,11 @@ class FnTarget:
         ax = {}
         for p in self.contract.params:
             n, k = p[0], p[1]
-            if n in inputs:
+            if n in inputs and inputs[n] is not None:
                 ax[n] = rp.data_to_py(inputs[n])
+            elif isinstance(k, tuple) and k[0] == 'obj':
+                fs = ', '.join(f"{f}={rp.data_to_py(inputs[n + '.' + f])}" for f in k[3] if (n + '.' + f) in inputs)
+                ax[n] = f'{k[2]}({fs})'
             else:
                 ax[n] = 'None'
         return (self.call or self.default_call)(ax)
@@ -54,6 +57,13 @@ class FnTarget:
             d = inputs.get(n)
             if isinstance(k, str) and k in ('ppat', 'mpat', 'pmap', 'idl', 'int', 'bool', 'name'):
                 a[n] = SV(rp.data_to_term(d, k), k) if d is not None else None
+            elif isinstance(k, tuple) and k[0] == 'obj':
+                from .pyfe import Obj
+                attrs = {}
+                for f, fk in k[3].items():
+                    fd = inputs.get(n + '.' + f)
+                    attrs[f] = SV(rp.data_to_term(fd, fk), fk) if fd is not None and isinstance(fk, str) else fd
+                a[n] = Obj(None, attrs)
             else:
                 a[n] = d
         return a
